@@ -13,7 +13,10 @@ RULE = ("masters (depth <= 3, every built-in type, .multiple/.optional combinati
         "the same master OBJECT is fetched, extended in place by scope.adopt_scope(plug-in) (new parameters / sub-scopes inside "
         "any active scope, re-declared parameters; 1-2 rounds) and fetched again (fresh sources and/or the previous result handed "
         "back); every fetch is judged against the structure the master declares at that moment and compared with the model's "
-        "answer on the text of the extended master")
+        "answer on the text of the extended master. Edited-result stream: fetch, EDIT THE RESULT IN PLACE (is_disabled, expert_level, "
+        "help/caption/short_caption, name set on, or deletion of, definitions and scopes at any depth of the result outside template "
+        "copies; 1-5 edits, 1-2 rounds), fetch again against the same master object (fresh sources, and the edited result handed "
+        "back): judged against an independent parse of the master text and compared with the model's answer on that text")
 ASSUMPTIONS = ["masters have unique sibling names apart from further occurrences of .multiple objects"]
 
 
@@ -113,14 +116,78 @@ def structure(o):
     return out
 
 
+def declared_master(case, upto=None):
+    """the master as DECLARED: an independent object built from the texts of the case (parse + in-place extensions) that
+    no fetch ever ran against and no result ever shared anything with"""
+    d = freephil.parse(input_string=case["master"])
+    for st in case["steps"][:upto]:
+        if "adopt_scope" in st:
+            d.adopt_scope(freephil.parse(input_string=st["adopt_scope"]))
+    return d
+
+
+def editable(w, at=()):
+    """objects of a fetch result that the stream edits in place: (index path, parent scope, object).  The CONTENT of a
+    template copy (is_template != 0: the master's declaration of a .multiple scope carried along verbatim) is left alone,
+    the template object itself is editable: scope.copy() is shallow, so on the unchanged library the objects inside a
+    template ARE the master's objects (reported as a finding on the unchanged tree, see seeded/C04-7/NOTES.txt; results
+    holding such content are counted as edited_template_content_left_alone)."""
+    out = []
+    for k, c in enumerate(w.objects):
+        out.append((at + (k,), w, c))
+        if c.is_scope and c.is_template == 0:
+            out.extend(editable(c, at + (k,)))
+    return out
+
+
+EDIT_TEXT_ATTRS = ("help", "caption", "short_caption")
+
+
+def draw_edit(rng, w, serial):
+    """one in-place edit of an object of the result w (drawn over the CURRENT state of w), or None"""
+    cands = editable(w)
+    if not cands:
+        return None
+    at, _parent, c = rng.choice(cands)
+    kind = rng.choice(["disable", "disable", "expert_level", "expert_level", "text", "rename", "delete"])
+    op = {"at": list(at), "object": c.name}
+    if kind == "disable":
+        op.update(op="set", attr="is_disabled", value=True)
+    elif kind == "expert_level":
+        op.update(op="set", attr="expert_level", value=rng.choice([v for v in (0, 1, 2, 3, 4) if v != c.expert_level]))
+    elif kind == "text":
+        op.update(op="set", attr=rng.choice(EDIT_TEXT_ATTRS), value="edited in the working copy %d" % serial)
+    elif kind == "rename":
+        op.update(op="set", attr="name", value="zz_edited_%d" % serial)
+    else:
+        op.update(op="delete")
+    return op
+
+
+def apply_edit(w, op):
+    parent = w
+    for k in op["at"][:-1]:
+        parent = parent.objects[k]
+    if op["op"] == "delete":
+        del parent.objects[op["at"][-1]]
+    else:
+        setattr(parent.objects[op["at"][-1]], op["attr"], op["value"])
+
+
 def play(case, upto=None):
-    """run a master life-cycle case on the implementation: parse the master, then fetch / extend it in place step by
-    step; returns (master object, result of the last fetch step or the exception it raised)"""
+    """run a master life-cycle case on the implementation: parse the master, then fetch / extend it in place / edit the
+    last fetch result in place, step by step; returns (master object, result of the last fetch step or the exception it
+    raised)"""
     m = freephil.parse(input_string=case["master"])
     w = None
     for st in case["steps"][:upto]:
         if "adopt_scope" in st:
             m.adopt_scope(freephil.parse(input_string=st["adopt_scope"]))
+        elif "edit_result" in st:
+            if w is not None and not isinstance(w, BaseException):
+                for op in st["edit_result"]:
+                    apply_edit(w, op)
+                w.as_str(attributes_level=2)
         else:
             ss = [freephil.parse(input_string=s) for s in st["fetch"]]
             if st.get("first_source_is_the_previous_result_object") and w is not None and not isinstance(w, BaseException):
@@ -132,6 +199,107 @@ def play(case, upto=None):
                     raise
                 w = e
     return m, w
+
+
+def edited_results(ctx, n):
+    """Fetch results EDITED IN PLACE between fetches against the same master object.  A fetch result is the application's
+    working copy: it switches entries off (is_disabled, written with '!'), changes expert levels / help texts for display,
+    renames or deletes entries.  The statement quantifies over every fetch against a master, whatever happened to earlier
+    results: the next fetch (fresh sources, or the edited working copy handed back) must have the shape the master
+    DECLARES - judged against an independent parse of the master text, which shares no object with any result - and, the
+    model being history-free, must agree with the model's answer on the master text."""
+    import mgen
+    rng = ctx.rng
+    cases, reqs, impls = [], [], []
+    for i in range(n):
+        if ctx.time_left() < 30:
+            ctx.notes.append("edited-result stream stopped early on time budget")
+            break
+        g = mgen.MasterGen(rng, depth=rng.choice([0, 1, 1, 2, 2, 3]), nested_multiples=(i % 3 == 2), deprecated=True)
+        tree = g.tree()
+        mt = mgen.render_master(tree)
+        m = freephil.parse(input_string=mt)
+        steps = []
+        w = None
+        for rnd in range(rng.choice([2, 2, 3])):
+            if rnd > 0:
+                # the application edits its working copy (the previous result) in place
+                ops = []
+                if any(c.is_scope and c.is_template != 0 and c.objects for _at, _p, c in editable(w)):
+                    ctx.count("edited_template_content_left_alone")
+                for _ in range(rng.choice([1, 2, 2, 3, 5])):
+                    op = draw_edit(rng, w, len(ops))
+                    if op is None:
+                        break
+                    apply_edit(w, op)
+                    ops.append(op)
+                    ctx.count("edit_%s" % (op.get("attr") or op["op"]))
+                if not ops:
+                    ctx.count("edit_nothing_to_edit")
+                    break
+                try:
+                    w.as_str(attributes_level=2)        # ... and writes it out
+                except BaseException as e:
+                    if isinstance(e, (KeyboardInterrupt, MemoryError)):
+                        raise
+                steps.append({"edit_result": ops})
+            srcs = [mgen.SourceGen(rng).text(tree) for _ in range(rng.choice([0, 0, 1, 1, 2]))]
+            steps.append({"fetch": srcs})
+            case = {"master": mt, "steps": [dict(s_) for s_ in steps]}
+            ss = [freephil.parse(input_string=s_) for s_ in srcs]
+            ctx.case((mt, repr(steps)), nontrivial=rnd > 0)
+            ctx.count("edited_fetch_round_%d" % rnd)
+            ia = _fetch.fetch_impl(m, ss)
+            ctx.count("edited_outcome_" + (ia[0] if ia[0] == "ok" else ia[1] if ia[1] == "sorry" else "%s_%s" % (ia[1], ia[2])))
+            f = None
+            prev_w, w = w, None
+            if ia[0] == "ok":
+                w = m.fetch(sources=ss)
+                f = shape(freephil.parse(input_string=mt), w)
+                if f is None and prev_w is not None and rng.random() < 0.5:
+                    # the edited working copy handed back as the first source, as the object it is
+                    ctx.count("edited_result_handed_back")
+                    try:
+                        f = shape(freephil.parse(input_string=mt), m.fetch(sources=[prev_w] + ss))
+                    except (RuntimeError, freephil.Sorry):
+                        ctx.count("edited_result_handed_back_refused")
+                    except BaseException as e:
+                        if isinstance(e, (KeyboardInterrupt, MemoryError)):
+                            raise
+                        f = "fetch raised %s: %s" % (type(e).__name__, e)
+                    if f:
+                        case = dict(case)
+                        case["steps"] = case["steps"][:-1] + [{"fetch": [""] + srcs,      # [0]: placeholder, see play()
+                                                               "first_source_is_the_previous_result_object": True}]
+            elif ia[1] == "stray":
+                f = "fetch raised %s: %s" % (ia[2], ia[3])
+            if f and rnd > 0:
+                ctx.count("edited_failure_after_edit")
+            cases.append((case, f))
+            reqs.append(_fetch.fetch_req(mt, srcs))
+            impls.append(ia)
+            if i % 100 == 0 and rnd > 0:
+                ctx.sample(case)
+            if w is None or f:
+                break
+    answers = [None] * len(reqs)
+    if reqs and ctx.mode != "impl-only":
+        from common import run_model, same_outcome
+        answers = run_model(reqs)
+        for (case, _f), a, i in zip(cases, answers, impls):
+            if a and i and a[0] == "ok" and i[0] == "ok":
+                ok = same_outcome(["ok", skeleton(a[1][0])], ["ok", skeleton(i[1][0])])
+            else:
+                ok = same_outcome(a, i)
+            ctx.traces += 1
+            if ok is None:
+                ctx.unsupported += 1
+            elif not ok:
+                ctx.disagree("fetch-after-in-place-edit-of-a-result", case, a, i)
+    for (case, f), a, i in zip(cases, answers, impls):
+        if f:
+            mv = None if (a is None or a[0] in ("unsupported", "parse-failed")) else (a[:3] == i[:3])
+            ctx.fail(case, f, finding=None, model_violates=mv)
 
 
 def life_cycles(ctx, n):
@@ -291,6 +459,7 @@ def run(ctx):
             mv = None if (a is None or a[0] in ("unsupported", "parse-failed")) else (a[:3] == i[:3])
             ctx.fail(case, f, finding=cls, model_violates=mv)
     life_cycles(ctx, ctx.scale(500, 8000, 600))
+    edited_results(ctx, ctx.scale(400, 6000, 500))
 
 
 def _life_fails(case):
@@ -300,7 +469,7 @@ def _life_fails(case):
         return False
     if isinstance(w, BaseException):
         return not isinstance(w, (RuntimeError, freephil.Sorry))
-    return w is not None and shape(m, w) is not None
+    return w is not None and shape(declared_master(case), w) is not None
 
 
 def shrink(f):
@@ -334,7 +503,7 @@ def shrink(f):
                 best = trial
                 break
     m, w = play(best)
-    what = ("fetch raised %s: %s" % (type(w).__name__, w)) if isinstance(w, BaseException) else shape(m, w)
+    what = ("fetch raised %s: %s" % (type(w).__name__, w)) if isinstance(w, BaseException) else shape(declared_master(best), w)
     best.pop("master_text_now", None)
     return dict(f, case=best, what=what, original_what=f["what"])
 
@@ -357,7 +526,7 @@ def replay(payload):
         if isinstance(w, BaseException):
             print(type(w).__name__, w)
             return type(w) is RuntimeError
-        r = shape(m, w)
+        r = shape(declared_master(c), w)
         print(r)
         return r is None
     m = freephil.parse(input_string=c["master"])
